@@ -491,6 +491,8 @@ static void systematic(void)
 				do_pass();
 			}
 			end_history(caseno);
+			if (vh_want_sample() && caseno % 200003 == 77 && trace.n < 600)
+				vh_sample("%s", trace.b);
 			if (vh_nviol >= 6)
 				return;
 		}
